@@ -309,7 +309,9 @@ def upload_view(drv):
         js = 1
     except Exception:
         js = 0
-    return {"tags": tags, "dts": dts, "programs": progs, "tasks": [c(x) for x in sorted(info.get("tasks", {}))], "json": js}
+    keep = ("vendor", "product_type", "product_code", "revision", "status", "serial", "product_name")
+    return {"tags": tags, "dts": dts, "programs": progs, "tasks": [c(x) for x in sorted(info.get("tasks", {}))], "json": js,
+            "info": to_term({k: info[k] for k in keep if k in info}), "plcname": to_term(drv.name)}
 
 
 def run_scenario(sc):
